@@ -44,6 +44,10 @@ PROGRAMS = [
 ]
 
 
+# working directory of the process relative to the (fixed) location of the sources: there, two levels below, the parent
+CWD_MODES = [None, None, "sub", None, "parent", "sub", "parent"]
+
+
 def runs_of(files, n):
     outs = []
     for _ in range(n):
@@ -88,7 +92,8 @@ def run(tier):
     chk.notes["model_selftest"] = "Determinism_pinned.cfg (examples in a randomly seeded hash map): TLC %s" % ("finds two eligible entries" if not rp.ok else "FAILED to find the nondeterminism")
     if rp.ok:
         raise common.ToolError("self-test: TLC no longer finds the nondeterminism of the hashed discipline")
-    for cfgname, what in (("Determinism_pinned_counter.cfg", "scope ids from a process-wide counter"), ("Determinism_pinned_clock.cfg", "a default computed from the wall clock")):
+    for cfgname, what in (("Determinism_pinned_counter.cfg", "scope ids from a process-wide counter"), ("Determinism_pinned_clock.cfg", "a default computed from the wall clock"),
+                          ("Determinism_pinned_cwd.cfg", "the module location digested relative to the working directory")):
         rq = run_tlc("Determinism", cfgname, workers=2, timeout=300)
         chk.add_tlc(rq)
         if rq.ok:
@@ -118,7 +123,7 @@ def run(tier):
         for k in range(nproc):
             sh = shifts[k]
             # every second run finds a longer file at the target (what an earlier compilation of another program may have left)
-            r_ = cli.run(files, workdir=d, target_exists=(k % 2 == 1), env_extra=None if sh is None else {"LD_PRELOAD": shim, "OALV_TIME_OFFSET": str(sh)})
+            r_ = cli.run(files, workdir=d, target_exists=(k % 2 == 1), cwd_mode=CWD_MODES[k % len(CWD_MODES)], env_extra=None if sh is None else {"LD_PRELOAD": shim, "OALV_TIME_OFFSET": str(sh)})
             outs.append((r_["exit"], r_["target"]))
         return outs
     with cf.ThreadPoolExecutor(max_workers=8) as ex:
@@ -139,9 +144,14 @@ def run(tier):
             ts = sorted(texts)
             # which collection differs?  or only the runs under a shifted wall clock?
             unshifted = set(o[1] for o, sh in zip(outs, shifts) if sh is None)
-            what = "wall-clock" if len(unshifted) == 1 else ("examples" if examples_order(ts[0]) != examples_order(ts[1]) else "other")
+            by_cwd = {}
+            for k_, o in enumerate(outs):
+                if shifts[k_] is None:
+                    by_cwd.setdefault(CWD_MODES[k_ % len(CWD_MODES)], set()).add(o[1])
+            cwd_only = len(unshifted) > 1 and all(len(v) == 1 for v in by_cwd.values())
+            what = "working-directory" if cwd_only else "wall-clock" if len(unshifted) == 1 else ("examples" if examples_order(ts[0]) != examples_order(ts[1]) else "other")
             chk.violation("C06|bytes-differ|%s" % what, "%s: %d different YAML texts in %d fresh processes (%s)" % (
-                              name, len(texts), nproc, "the runs under a shifted wall clock differ" if what == "wall-clock" else "the order of `%s` entries differs" % what),
+                              name, len(texts), nproc, "the runs under a shifted wall clock differ" if what == "wall-clock" else "the runs started from different working directories differ" if what == "working-directory" else "the order of `%s` entries differs" % what),
                           {"files": files, "variants": ts[:2]})
             continue
         chk.cov["traces_validated_against_impl"] += 1
@@ -170,12 +180,12 @@ def run(tier):
     chk.cov["evaluations"] = len(progs_) * nproc + len(PROGRAMS) * 3
     chk.cov["distinct_nontrivial"] = nontrivial
     chk.cov["rule"] = ("8 directed programs exercising every collection on the output path with 2-5 entries (examples at three levels, references, ranges, methods, rec in "
-                       "functions, two imported modules) + accepted single-file programs of the repository corpus; each compiled by %d fresh oal-cli processes (every second one over an existing, much longer target file; the last three under a wall clock shifted by +400 days, +3 days, -200 days through an LD_PRELOAD shim) and 3 "
+                       "functions, two imported modules) + accepted single-file programs of the repository corpus; each compiled by %d fresh oal-cli processes (every second one over an existing, much longer target file; started from the sources' directory, from two levels below it and from its parent, the module named by the corresponding relative path; the last three under a wall clock shifted by +400 days, +3 days, -200 days through an LD_PRELOAD shim) and 3 "
                        "times in one process; non-trivial = accepted programs" % nproc)
     chk.sample({"program": PROGRAMS[0][1], "processes": nproc})
     chk.assumptions = [
         "process-level nondeterminism (hash seeds) is observed over N processes, not modelled: with k >= 3 entries in a hashed collection the probability that N runs agree by chance is below (1/k!)^(N-1)",
-        "same sources at the same locations: every run uses the same directory",
+        "same sources at the same locations: every run of a program uses the same absolute file locations; the working directory of the process and the relative spelling of the main module vary",
     ]
     return chk.finish()
 
